@@ -25,9 +25,9 @@ var identTypeStrings = []struct {
 }{{"purl", 1}, {"cpe22Type", 2}, {"cpe23Type", 3}, {"gitoid", 4}, {"cpe2.3", 3}, {" CPE22 ", 2}, {"nonsense", 0}}
 
 func nlGen(g *G, tier string) []M {
-	n := 1500
+	n := 6000
 	if tier == "thorough" {
-		n = 60000
+		n = 150000
 	}
 	var ops []M
 	for i := 0; i < n; i++ {
@@ -39,10 +39,29 @@ func nlGen(g *G, tier string) []M {
 		o2.MaxNodes = 1 + g.Int(6)
 		b := g.NodeList(o2)
 		anyID := func() string {
-			if g.Chance(0.1) {
-				return g.Pick([]string{"z", "", "nope"})
+			if g.Chance(0.12) {
+				return g.Pick([]string{"z", "", "", "nope"})
 			}
 			return g.Pick(o.Pool)
+		}
+		if g.Chance(0.12) {
+			// dense graphs for the extraction operations: more nodes, fan-out, several levels
+			d := g.denseGraph()
+			id := g.Pick(d.pool)
+			switch g.Int(3) {
+			case 0:
+				ops = append(ops, M{"op": "nodeGraph", "a": d.nl, "id": id})
+			case 1:
+				ops = append(ops, M{"op": "nodeDescendants", "a": d.nl, "id": id, "depth": float64(1 + g.Int(6))})
+			case 2:
+				ops = append(ops, M{"op": "nodeSiblings", "a": d.nl, "id": id})
+			}
+			continue
+		}
+		if g.Chance(0.08) {
+			l, probe := g.matchCase()
+			ops = append(ops, M{"op": "match", "a": l, "n": probe})
+			continue
 		}
 		switch g.Int(20) {
 		case 0, 1, 2:
@@ -118,6 +137,78 @@ func (g *G) matchNode(id string) M {
 		attrs["Name"] = g.Pick(strPool[:3])
 	}
 	return M{"id": id, "type": ty, "a": attrs}
+}
+
+type dense struct {
+	nl   M
+	pool []string
+}
+
+// denseGraph: 4-9 nodes, 5-14 edges with 1-3 targets over 2 types, some roots, cycles allowed.
+func (g *G) denseGraph() dense {
+	n := 4 + g.Int(6)
+	pool := g.Pool(n)
+	nodes := []any{}
+	for _, id := range pool {
+		nodes = append(nodes, g.Node(id, 0.05))
+	}
+	edges := []any{}
+	ne := 5 + g.Int(10)
+	for i := 0; i < ne; i++ {
+		tos := []any{}
+		for k := 0; k <= g.Int(3); k++ {
+			if g.Chance(0.05) {
+				tos = append(tos, "z")
+			} else {
+				tos = append(tos, g.Pick(pool))
+			}
+		}
+		edges = append(edges, M{"ty": float64(EdgeTypes[g.Int(2)]), "src": g.Pick(pool), "tos": tos})
+	}
+	roots := []any{}
+	for i := 0; i < g.Int(3); i++ {
+		roots = append(roots, g.Pick(pool))
+	}
+	return dense{M{"nodes": nodes, "edges": edges, "roots": roots}, pool}
+}
+
+// matchCase: list nodes derived from the probe — each carries a sub-map of the probe's hashes
+// (sometimes with a conflicting or empty value, sometimes an extra algorithm) and a purl from a
+// small pool, so that several candidates share hashes or purls with the probe.
+func (g *G) matchCase() (M, M) {
+	probe := g.matchNode("probe")
+	ph := asList(attrOf(probe, "Hashes"))
+	nodes := []any{}
+	n := 1 + g.Int(4)
+	for i := 0; i < n; i++ {
+		id := fmtID(i)
+		if g.Chance(0.1) {
+			id = "n0"
+		}
+		nd := g.matchNode(id)
+		attrs := nd["a"].(M)
+		h := []any{}
+		for _, p := range ph {
+			q := p.([]any)
+			if g.Chance(0.5) {
+				v := q[1]
+				if g.Chance(0.15) {
+					v = g.Pick([]string{"aa", "bb", ""})
+				}
+				h = append(h, []any{q[0], v})
+			}
+		}
+		if g.Chance(0.2) {
+			h = append(h, []any{float64(7), "zz"})
+		}
+		if len(h) > 0 {
+			attrs["Hashes"] = h
+		} else {
+			delete(attrs, "Hashes")
+		}
+		nodes = append(nodes, nd)
+	}
+	return M{"nodes": nodes, "edges": []any{}, "roots": []any{}}, probe
 }
 
 func (g *G) matchList() M {
